@@ -745,10 +745,36 @@ func c13CallbackOrder(c *Ctx) {
 		}
 		return nil
 	}
+	// the notification itself, or the call of a helper of the package that delivers it
+	var invokesDeep func(fn *ssa.Function, name string, depth int) bool
+	invokesDeep = func(fn *ssa.Function, name string, depth int) bool {
+		for _, b := range fn.Blocks {
+			for _, in := range b.Instrs {
+				ci, ok := in.(ssa.CallInstruction)
+				if !ok {
+					continue
+				}
+				if ci.Common().IsInvoke() && ci.Common().Method.Name() == name {
+					return true
+				}
+				if h := ci.Common().StaticCallee(); h != nil && depth < 2 && h.Pkg == fn.Pkg && h.Blocks != nil && !token.IsExported(h.Name()) && invokesDeep(h, name, depth+1) {
+					return true
+				}
+			}
+		}
+		return false
+	}
 	isInvoke := func(name string) func(ssa.Instruction) bool {
 		return func(in ssa.Instruction) bool {
 			ci, ok := in.(ssa.CallInstruction)
-			return ok && ci.Common().IsInvoke() && ci.Common().Method.Name() == name
+			if !ok {
+				return false
+			}
+			if ci.Common().IsInvoke() && ci.Common().Method.Name() == name {
+				return true
+			}
+			h := ci.Common().StaticCallee()
+			return h != nil && h.Pkg == in.Parent().Pkg && h.Blocks != nil && !token.IsExported(h.Name()) && invokesDeep(h, name, 1)
 		}
 	}
 	// session: the loop `for sc := range ss.conns { sc.Close(); <-sc.done }` precedes OnSessionClose:
